@@ -205,6 +205,7 @@ type FlowRemoved struct {
 func NewFlowRemoved() *FlowRemoved {
 	f := new(FlowRemoved)
 	f.Header = NewOfp13Header()
+	f.Header.Type = Type_FlowRemoved
 	f.Match = *NewMatch()
 	return f
 }
@@ -217,6 +218,7 @@ func (f *FlowRemoved) Len() (n uint16) {
 }
 
 func (f *FlowRemoved) MarshalBinary() (data []byte, err error) {
+	f.Header.Length = f.Len()
 	data = make([]byte, int(f.Len()))
 	next := 0
 
